@@ -6,7 +6,7 @@ From Coq Require Import Strings.Byte NArith ZArith List.
 From Coq Require Import Strings.String.
 Import ListNotations.
 Local Open Scope list_scope.
-From LLIR Require Import Lib.Bytes Lib.Radix Model.Natsort Model.Assemble Model.Writer Gen.Enums Proofs.EnumProofs Model.IntLit Model.Enc Model.Types Model.TypeString Model.Gep Model.ResultType Model.Numbering Model.MetadataIDs.
+From LLIR Require Import Lib.Bytes Lib.Radix Model.Natsort Model.Assemble Model.Writer Gen.Enums Proofs.EnumProofs Model.IntLit Model.Enc Model.Types Model.TypeString Model.Gep Model.ResultType Model.Numbering Model.MetadataIDs Model.Skeleton.
 
 Definition byte_of_N_total (n : N) : byte := match Byte.of_N n with Some b => b | None => x00 end.
 (* C19: run the chunks against a writer failing after k bytes: (size, failed?, delivered, calls) *)
@@ -83,13 +83,27 @@ Definition mk_item (n : bool) (id : Z) (v : bool) : item := {| it_named := n; it
 Definition c08_assign (l : list item) : option (list item) :=
   match assign_ids l with Numbering.Ok r => Some r | Numbering.Err => None end.
 Definition mk_gent (k : nat) (named : bool) : gent :=
-  {| g_kind := match k with 0 => KGlobal | 1 => KAlias | 2 => KIFunc | _ => KFunc end;
+  {| g_kind := match k with 0 => Numbering.KGlobal | 1 => Numbering.KAlias | 2 => Numbering.KIFunc | _ => Numbering.KFunc end;
      g_item := {| it_named := named; it_id := 0%Z; it_value := true |} |}.
 Definition c08_print_after_parse (l : list gent) : bool :=
   match print_after_parse l with Numbering.Ok _ => true | Numbering.Err => false end.
 (* C17 *)
 Definition c17_assign (ids : list Z) : option (list Z) :=
   match assign_md_ids ids with MetadataIDs.Ok r => Some r | MetadataIDs.Err => None end.
+(* C04/C05/C12: the resolution skeleton; map iteration in insertion order, sort = identity (neither
+   influences the outcome class: translate_order_independent) *)
+Definition sk_translate (l : list top) : nat :=
+  match translate (fun _ x => x) (fun x => x) l with Skeleton.Ok _ => 0 | Skeleton.Err => 1 | Skeleton.Panic => 2 end.
+Definition sk_translate_rev (l : list top) : nat :=
+  match translate (fun _ x => rev x) (fun x => x) l with Skeleton.Ok _ => 0 | Skeleton.Err => 1 | Skeleton.Panic => 2 end.
+Definition mk_top (n : ns) (i : option Skeleton.ident) (k : tkind) (u : list use) (b : list Skeleton.ident) (ba : list (Skeleton.ident * Skeleton.ident)) : top :=
+  {| t_ns := n; t_id := i; t_kind := k; t_uses := u; t_blocks := b; t_baddrs := ba |}.
+Definition mk_use (n : ns) (i : Skeleton.ident) : use := {| u_ns := n; u_id := i |}.
+(* constructors cross the extraction boundary through functions (extraction renames clashing constructor names) *)
+Definition sk_name (s : bytes) : Skeleton.ident := Skeleton.IName s.
+Definition sk_num (z : Z) : Skeleton.ident := Skeleton.INum z.
+Definition sk_ns (k : nat) : ns := match k with 0 => NType | 1 => NComdat | 2 => NGlobal | 3 => NAttr | _ => NMeta end.
+Definition sk_kind (k : nat) (target : Skeleton.ident) : tkind := match k with 0 => KPlain | 1 => KOpaque | _ => Skeleton.KAlias target end.
 Definition sort_ids (l : list Z) : list Z := isort Z.ltb l.
 
 Extraction "model.ml" byte_of_N_total Byte.to_N
@@ -98,4 +112,4 @@ Extraction "model.ml" byte_of_N_total Byte.to_N
   Enc.global_name Enc.local_name Enc.label_name Enc.type_name Enc.comdat_name Enc.metadata_name Enc.escape_ident Enc.escape_string Enc.quote Enc.unescape
   Enc.global_id Enc.local_id Enc.label_id c11_dec_global c11_dec_local c11_dec_label c11_dec_type c11_dec_comdat c11_dec_metadata
   TypeString.ty_string TypeString.equal_go
-  gep_result gep_inst gep_parse gep_expr mk_index c06_ir c06_asm mk_item c08_assign Numbering.it_id mk_gent c08_print_after_parse c17_assign.
+  gep_result gep_inst gep_parse gep_expr mk_index c06_ir c06_asm mk_item c08_assign Numbering.it_id mk_gent c08_print_after_parse c17_assign sk_translate sk_translate_rev mk_top mk_use sk_name sk_num sk_ns sk_kind.
